@@ -74,7 +74,7 @@ class World(object):
         from vsc.impl.coverage_registry import CoverageRegistry
         CoverageRegistry.clear()
         self.cfgname = cfgname
-        self.cfg = CONFIGS[cfgname]
+        self.cfg = CONFIGS[cfgname.split("@")[0]]
         self.spec = {'cps': self.cfg['cps'], 'crosses': self.cfg['crosses'], 'options': self.cfg.get('options')}
         self.CG = cov.build_cg(self.spec)
         # a second covergroup class (another type name) lives in the same registry
@@ -193,8 +193,10 @@ class World(object):
 
 
 def replay_hist(cfgname, hist):
+    """'<config>' starts from one instance of the full shape, '<config>@small' from one of the small shape
+    (the creation order of the shapes decides which instance founds the first type)"""
     w = World(cfgname)
-    w.create("full")
+    w.create("small" if cfgname.endswith("@small") else "full")
     for op in hist:
         apply_op(w, op)
     return w
@@ -321,8 +323,18 @@ def _mk(name):
     return f
 
 
+def world_names():
+    out = []
+    for n, c in CONFIGS.items():
+        out.append(n)
+        b0 = c['cps'][0].get('bins')
+        if b0 and len(b0) > 1:
+            out.append(n + "@small")
+    return out
+
+
 EXPAND = {}
-for _n in CONFIGS:
+for _n in world_names():
     EXPAND[_n] = _mk(_n)
     globals()["expand_" + _n] = EXPAND[_n]
     EXPAND[_n].__qualname__ = "expand_" + _n
@@ -336,10 +348,10 @@ def run(res, only=None):
     depth = 5 if res.tier == "quick" else 6
     allstats = {}
     tot_states = tot_trans = checked = 0
-    for name in CONFIGS:
+    for name in world_names():
         if only and only != name:
             continue
-        stats, viols, cnts = bfs.search(EXPAND[name], replay_hist(name, []).key(), depth, seed=res.seed,
+        stats, viols, cnts = bfs.search(EXPAND[name], replay_hist(name, []).key(), depth - (1 if "@" in name else 0), seed=res.seed,
                                         max_states=(20000 if res.tier == "quick" else 100000))
         allstats[name] = stats
         tot_states += stats["states"]
@@ -357,7 +369,7 @@ def run(res, only=None):
                        "not-yet-covered sets, registry shape list with instance counts); distinct by construction")
     res.cov["bfs"] = allstats
     res.cov["exhaustive"] = not any(s["capped"] for s in allstats.values())
-    res.cov["bounds"] = {"depth": depth, "max_instances": MAX_INST, "configs": list(CONFIGS)}
+    res.cov["bounds"] = {"depth": depth, "depth_small_first": depth - 1, "max_instances": MAX_INST, "worlds": world_names()}
     res.sample({"config": "two_cp_x", "history": [["create", "small"], ["sample", 0, [3, 1]], ["sample", 1, [0, 0]]]})
 
 
